@@ -427,6 +427,54 @@ def rule_inc_fail_on_destructed(ctx):
     return r
 
 
+def rule_upgrade_trace(ctx):
+    """A Snapshot handed out through a weak pointer did not come through a link of an owner, so no link stamp and no
+    owner's decrement stamp says that somebody may be looking at the object *now*.  If the check that grants it leaves no
+    trace on the count word, an owner that is itself being destructed takes the object with it in the same cascade pass
+    (all three merged stamps are old) while the critical section that upgraded is still active (F12)."""
+    r = RuleResult("CW-UPGRADE-TRACE", ["C02", "C05"],
+                   "the check behind WeakSnapshot::upgrade leaves a trace on the count word on every granting path: the "
+                   "token from zero, or the current epoch as stamp")
+    prog = ctx.prog
+    helpers = set()
+    for name, b0 in prog.bodies.items():
+        b = prog.bodies.get(prog.home(name), b0)
+        if not b.locals[0]["ty"].startswith("std::option::Option<strong::Snapshot<"):
+            continue
+        for (bi, t_, c) in b0.calls():
+            tg = c.target or ""
+            if tg.startswith("utils::RcInner::<T>::") and tg in prog.bodies and prog.bodies[tg].locals[0]["ty"] == "bool":
+                helpers.add(tg)
+    n = 0
+    for f in sorted(helpers):
+        r.functions.add(f)
+        for (p, rb) in [x for p0 in ctx.paths2(f) if p0.exit[0] == "return" for x in split_on_return(ctx, p0)]:
+            r.paths += 1
+            if rb is not True:
+                continue
+            n += 1
+            sites = [s for s in ctx.sites_on_path(p) if s["kind"] == "rmw" and s["outcome"] == "ok"]
+            token = any(s["delta"].get("strong", (0,))[0] > 0 for s in sites)
+            stamped = False
+            for s in sites:
+                st = s.get("stamp")
+                if st is None:
+                    continue
+                v = strip(_uncast(st))
+                if isinstance(v, tuple) and v[0] == "call" and v[1] == "ebr_impl::default::global_epoch":
+                    stamped = True
+            ok = token or stamped
+            r.instance("%s grants: %s" % (f.split("::")[-1], "token from zero" if token else "stamps the current epoch" if stamped
+                                           else "no trace"), ok)
+            if not ok:
+                r.violate(f, "no-trace", "grants a Snapshot (returns true) without adding a token or stamping the current epoch "
+                          "on the count word: if the object's only owner is a node whose destruction is already pending, the "
+                          "cascade merges three old stamps and destructs the object in the same pass, inside the critical "
+                          "section that upgraded", p.body.loc(p.blocks[-1][1]))
+    r.require(n, 1, "granting paths of snapshot-granting checks")
+    return r
+
+
 def _first_arg(t):
     if isinstance(t, tuple) and t[0] == "call" and t[2]:
         return t[2][0]
@@ -1209,6 +1257,42 @@ def rule_stamp(ctx):
                                    "global_epoch() is read while the thread may be unpinned and the value is later "
                                    "written as the count-word stamp: the stamp can be arbitrarily stale and overwrites a "
                                    "newer one", p.events[gi].loc())
+    # stamps written by sites that do not decrement (the upgrade check, F12): the epoch must equally be read while
+    # pinned; there the critical section is the caller's, witnessed by the guard-bound handle the call is made through
+    GUARD_BOUND = {"weak::WeakSnapshot": "WeakSnapshot<'g> (the caller's guard is alive)",
+                   "strong::Snapshot": "Snapshot<'g> (the caller's guard is alive)"}
+    for f in sorted({a["fn"] for a in ctx.scan_accesses() if a["op"] != "load"} - {DEC_STRONG, DGN}):
+        done = set()
+        for p in ctx.paths2(f):
+            for s in ctx.sites_on_path(p):
+                if s["kind"] != "rmw" or s["stamp"] is None or s["delta"].get("strong", (0,))[0] < 0:
+                    continue
+                for g in calls_in(s["stamp"], "ebr_impl::default::global_epoch"):
+                    gi = [i for i, e in enumerate(p.events) if e.kind == "call" and e.result == g]
+                    if not gi or (f, p.events[gi[0]].bb) in done:
+                        continue
+                    done.add((f, p.events[gi[0]].bb))
+                    nreads.add((f, p.events[gi[0]].bb))
+                    r2.functions.add(f)
+                    why = _guard_pinned_at(ctx, p, gi[0])
+                    if not why:
+                        classes = set()
+                        for (b, bi, t_, c_) in ctx.prog.callers_of(f):
+                            for rn in ctx.prog.path_roots(b.name):
+                                rb_ = ctx.prog.body(rn)
+                                for q in ctx.paths(rn):
+                                    ev = [e for e in q.events if e.kind == "call" and e.target == f and e.bb == bi and e.body is b]
+                                    if ev:
+                                        classes.add(_receiver_class(ctx.prog, rb_, ev[0].args[0])[0])
+                                        break
+                        if classes and classes <= set(GUARD_BOUND):
+                            why = "called only through " + ", ".join(sorted(GUARD_BOUND[c][:16] for c in classes))
+                    ok = bool(why)
+                    r2.instance("%s: epoch read at %s [%s]" % (f.split("::")[-1], p.events[gi[0]].loc(), why or "UNPINNED"), ok)
+                    if not ok:
+                        r2.violate(f, "epoch-read", "global_epoch() is read while the thread may be unpinned and the value is "
+                                   "later written as the count-word stamp: the stamp can be arbitrarily stale and overwrites "
+                                   "a newer one", p.events[gi[0]].loc())
     r.require(len(seen), 2, "strong-decrementing sites")
     r2.require(len(nreads), 2, "epoch reads feeding stamps")
     return r, r2
